@@ -12,10 +12,7 @@ impl LintPass for CalleeSavedRegisterCheck {
         // in source order, and report every offending store once (functions
         // that share code find the same store).
         let mut functions = cfg.functions().values().cloned().collect::<Vec<_>>();
-        functions.sort_by_key(|func| {
-            let entry = func.entry();
-            (entry.range().start().raw_index(), entry.file())
-        });
+        functions.sort_by_key(|func| func.entry().position());
         functions.dedup_by(|a, b| Rc::ptr_eq(a, b));
         let mut reported: Vec<(uuid::Uuid, crate::parser::Range)> = Vec::new();
         for func in &functions {
